@@ -292,6 +292,13 @@ fn manifest_extras(base: &str, m: &jbk::reader::ManifestPack, out: &mut Dump) {
 
 /// Full logical dump through `reader::Container`.
 pub fn dump_container(entry: &Path, spec: &DumpSpec) -> Dump {
+    dump_container_moved(entry, spec, None)
+}
+
+/// With `moved_to`: once the container is open its file is renamed to `moved_to` (the name it
+/// was opened under no longer exists; the open descriptor still shows the same file), everything
+/// is read, and the file gets its name back before the second entry point is asked.
+pub fn dump_container_moved(entry: &Path, spec: &DumpSpec, moved_to: Option<&Path>) -> Dump {
     let mut out = Dump::default();
     let container = match jbk::reader::Container::new(entry) {
         Ok(c) => c,
@@ -304,7 +311,17 @@ pub fn dump_container(entry: &Path, spec: &DumpSpec) -> Dump {
         }
     };
     out.push("open", Leaf::Val("ok".into()));
-    dump_opened(&container, spec, &mut out);
+    if let Some(to) = moved_to {
+        std::fs::rename(entry, to).unwrap_or_else(|e| crate::harness_error(&format!("cannot move the open container file: {e}")));
+    }
+    let r = std::panic::catch_unwind(std::panic::AssertUnwindSafe(|| dump_opened(&container, spec, &mut out)));
+    drop(container);
+    if let Some(to) = moved_to {
+        std::fs::rename(to, entry).unwrap_or_else(|e| crate::harness_error(&format!("cannot move the container file back: {e}")));
+    }
+    if let Err(p) = r {
+        std::panic::resume_unwind(p);
+    }
     dump_manifest(entry, &mut out);
     out
 }
